@@ -791,7 +791,10 @@ def der_decode(data: bytes) -> object:
 
     """
 
-    value, end = der_decode_partial(data)
+    try:
+        value, end = der_decode_partial(data)
+    except RecursionError:
+        raise ASN1DecodeError('ASN.1 value nested too deeply') from None
 
     if end < len(data):
         raise ASN1DecodeError('Data contains unexpected bytes at end')
